@@ -172,6 +172,17 @@ def generate(repo):
         params, body, _ = find_fn(ts, fn)
         bodies[fn] = body
         fps['track_sizing::' + fn] = norm_tokens(params) + ' | ' + norm_tokens(body)
+    # stage 2 (Model/GridIntrinsic.v): the rest of step 11.5
+    for fn in ['distribute_item_space_to_growth_limit', 'flush_planned_base_size_increases', 'flush_planned_growth_limit_increases',
+               'cmp_by_cross_flex_then_span_then_start', 'determine_if_item_crosses_flexible_or_intrinsic_tracks',
+               'resolve_item_track_indexes', 'next', 'min_content_contribution', 'max_content_contribution', 'minimum_contribution']:
+        params, body, _ = find_fn(ts, fn)
+        fps['track_sizing::' + fn] = norm_tokens(params) + ' | ' + norm_tokens(body)
+    gi = tokenize(open(repo + '/src/compute/grid/types/grid_item.rs').read())
+    for fn in ['spanned_track_limit', 'spanned_fixed_track_limit', 'track_range_excluding_lines', 'margins_axis_sums_with_baseline_shims',
+               'minimum_contribution', 'min_content_contribution_cached', 'max_content_contribution_cached', 'minimum_contribution_cached']:
+        params, body, _ = find_fn(gi, fn)
+        fps['grid_item::' + fn] = norm_tokens(params) + ' | ' + norm_tokens(body)
     for fn in ['initialize_grid_tracks', 'compute_explicit_grid_size_in_axis', 'create_implicit_tracks']:
         params, body, _ = find_fn(eg, fn)
         bodies[fn] = body
